@@ -20,6 +20,7 @@ and the close-notify alert re-used the first application record's nonce).  The s
 rule is kept as `Tx.allocAlertFromCtx` only to exhibit that collision.
 -/
 import RtcModel.Lemmas.DtlsHs
+import RtcModel.Lemmas.DtlsNonce
 
 namespace RtcModel.Theorems.C03
 open RtcModel.Generated RtcModel.DtlsRecord RtcModel.DtlsHs
@@ -343,6 +344,56 @@ theorem close_alert_from_ctx_seq_reuses_nonce :
     ¬ (((Tx.afterCcs 0).run [.finished, .app 0]).allocAlertFromCtx 1).log.Pairwise
         (fun a b => ¬ (a.epoch = b.epoch ∧ a.seq = b.seq)) := by
   decide
+
+/-- **all_records_nonce_unique at the endpoint** (what ties the counter model `Tx` to the code's
+two counters): take any endpoint — either role, any expected fingerprint — and *any* history of
+datagrams (arbitrary bytes, arbitrary AEAD behaviour), `send`s of any payloads in any number, ticks,
+`close`, deadline.  Among all records it ever sealed — the Finished, every application record, the
+close alert, retransmitted flights — two with the same `(epoch, sequence number)` are the same record
+(same type, same plaintext: a byte-identical retransmission), never two different ones.  The proof is
+an invariant (`NInv`) over both counters (`ctx.sequence_number`, `write_seq`), their hand-over when
+`Connected` is published, and the epoch switch; it is what fails when the alert takes the context's
+counter after publication or when a second Finished re-publishes the counters. -/
+theorem endpoint_nonce_unique (C : Crypto) (L : Loc) (isClient : Bool) (fp : Option Bytes) (ops : List Op) :
+    ∀ a ∈ sealedOf ((start L isClient fp).2 ++ (runOps C L (start L isClient fp).1 ops).2),
+    ∀ b ∈ sealedOf ((start L isClient fp).2 ++ (runOps C L (start L isClient fp).1 ops).2),
+      a.epoch = b.epoch → a.seq = b.seq → a = b := by
+  have h := runOps_ninv C L ops _ _ (start_ninv L isClient fp)
+  rw [← sealedOf_append] at h
+  exact h.uniq
+
+/-- and application data only ever leaves sealed: every record `send` emits is marked sealed, carries
+at most `MAX_APP_DATA_RECORD_SIZE` plaintext bytes, and the chunks concatenate to the payload -/
+theorem send_emits_only_sealed (e : Ep) (d : Bytes) :
+    (∀ o ∈ (onSend e d).2, ∃ w, o = .send w ∧ w.sealed = true ∧ w.ctype = dtlsCtApplicationData ∧
+        w.plain.length ≤ dtlsMaxAppDataRecordSize) ∧
+    (e.conn = .connected → ((onSend e d).2.filterMap (fun o => match o with | .send w => some w.plain | _ => none)).flatten = d) := by
+  unfold onSend
+  split
+  · rename_i hc
+    dsimp only
+    constructor
+    · intro o ho
+      rw [List.mem_iff_getElem] at ho
+      obtain ⟨n, hn, rfl⟩ := ho
+      simp only [List.length_zipWith, List.length_range, Nat.min_self] at hn
+      refine ⟨⟨dtlsCtApplicationData, e.writeEpoch, e.writeSeq + n, true, (appChunks d)[n]⟩, by simp, rfl, rfl, ?_⟩
+      exact (chunks_bound _ (by decide) _ _ _ (List.getElem_mem hn)).1
+    · intro _
+      have key : ∀ (cs : List Bytes) (f : Nat → Nat), ((List.zipWith (fun i c => Out.send ⟨dtlsCtApplicationData, e.writeEpoch, f i, true, c⟩)
+          (List.range cs.length) cs).filterMap (fun o => match o with | .send w => some w.plain | _ => none)) = cs := by
+        intro cs
+        induction cs with
+        | nil => intro f; rfl
+        | cons c cs ih =>
+          intro f
+          simp only [List.length_cons, List.range_succ_eq_map, List.zipWith_cons_cons, List.filterMap_cons]
+          congr 1
+          rw [List.zipWith_map_left]
+          exact ih (fun i => f (i + 1))
+      rw [key (appChunks d) (fun i => e.writeSeq + i)]
+      exact chunks_flatten _ (by decide) _ _ (by omega)
+  · exact ⟨by simp, fun h => absurd h (by assumption)⟩
 
 /-! ### non-vacuity -/
 
